@@ -975,8 +975,16 @@ pub fn check(world: &World, sc: &C17, sandbox: &str) -> Report {
     rep.probe("intercepted_io_calls", o.counters[2] + o.counters[3] + o.counters[4] + o.counters[5] + o.counters[6]);
     // `{:?}` of the duplicate table is hash-order dependent and timing lines are clock dependent:
     // both are functions of the simulated environment, so the whole stdout belongs to the event log
-    rep.event(format!("cli {:?} exit={:?} sig={:?} stdout={:016x} fired={fired_faults:?}", args, o.code, o.signal, fnv1a(o.stdout.as_bytes())));
-    let how = format!("`hctl-model-checker {}` (clock {}, io plan [{}])", args.join(" "), sc.clock, sc.io_plan);
+    // the sandbox location is not part of the simulated world: keep it out of the event log
+    let shown_args: Vec<String> = args.iter().map(|a| a.replace(&dir, "$RUN")).collect();
+    rep.event(format!(
+        "cli {:?} exit={:?} sig={:?} stdout={:016x} fired={fired_faults:?}",
+        shown_args,
+        o.code,
+        o.signal,
+        fnv1a(o.stdout.replace(&dir, "$RUN").as_bytes())
+    ));
+    let how = format!("`hctl-model-checker {}` (clock {}, io plan [{}])", shown_args.join(" "), sc.clock, sc.io_plan);
     let hard_fault = fired_faults.iter().any(|(n, _)| !matches!(n.as_str(), "fault_short_write" | "fault_short_read" | "fault_clock_backward"));
     let write_fault_only = hard_fault && fired_faults.iter().all(|(n, _)| matches!(n.as_str(), "fault_short_write" | "fault_short_read" | "fault_clock_backward" | "fault_eio_write" | "fault_enospc" | "fault_efbig" | "fault_eio_close" | "fault_eio_seek" | "fault_eintr"));
     // crashes: always judged, except under faults on the *output* file (the statement names
@@ -1087,7 +1095,7 @@ pub fn check(world: &World, sc: &C17, sandbox: &str) -> Report {
             }
             match run_cli(&rd, &args, &steady_clock(), sc.rand ^ 3, "") {
                 Ok(o2) => {
-                    rep.event(format!("rerun exit={:?} stdout={:016x}", o2.code, fnv1a(o2.stdout.as_bytes())));
+                    rep.event(format!("rerun exit={:?} stdout={:016x}", o2.code, fnv1a(o2.stdout.replace(&dir, "$RUN").as_bytes())));
                     rep.probe("fault_free_reruns", 1);
                     let how2 = format!("fault-free re-run after a faulty run: {how}");
                     if let Some(c) = crashed(&o2) {
